@@ -499,3 +499,136 @@ Proof.
       specialize (IH false delay ((if first then now else (now + delay)%Z) + d)%Z c rest).
       destruct (serve_loop fuel false delay _ c rest) as [r calls]. cbn in *. destruct IH as [A B]. split; [lia | auto].
 Qed.
+
+(* ------------------------------------------------------------------ Serve returns *)
+(* Labels that matter for termination: everything except the delivery of a further signal (LSig,
+   always possible, changes at most `pending`) and a task's observation of the cancellation (LSee,
+   repeatable, changes only what that task has seen). *)
+Definition quiet_label (l : label) : bool :=
+  match l with LSig _ | LSee _ _ => false | _ => true end.
+
+Definition task_rank (t : task) : nat :=
+  match t_status t with
+  | NotStarted => 3
+  | Running => if t_ready t then 1 else 2
+  | Returned _ => 0
+  end.
+Definition tasks_rank (l : list task) : nat := fold_right (fun t a => task_rank t + a) 0 l.
+Definition sig_rank (s : sigst) : nat :=
+  match s with
+  | SWait => Datatypes.S (Datatypes.S (length signal_run_order))
+  | SAct _ k => Datatypes.S (length signal_run_order) - k
+  | SDone => 0
+  end.
+Definition serve_measure (st : state) : nat :=
+  tasks_rank (tasks st) + sig_rank (sigtask st) + (if notified st then 0 else 1) +
+  (match served st with Some _ => 0 | None => 1 end).
+
+Lemma tasks_rank_upd : forall l i t f, nth_error l i = Some t ->
+  tasks_rank (upd i f l) + task_rank t = tasks_rank l + task_rank (f t).
+Proof.
+  induction l as [|a l IH]; intros i t f H; [destruct i; discriminate|].
+  destruct i; cbn [nth_error] in H; cbn [upd tasks_rank fold_right].
+  - injection H as ->. lia.
+  - specialize (IH i t f H). unfold tasks_rank in IH. lia.
+Qed.
+
+Lemma quiet_step_decreases : forall st l st', quiet_label l = true -> step st l = Some st' ->
+  serve_measure st' < serve_measure st.
+Proof.
+  intros st l st' Hq H. destruct l; try discriminate; cbn [step] in H.
+  - (* LStart *)
+    destruct (nth_error (tasks st) i) as [t|] eqn:E; [|discriminate].
+    destruct (t_status t) eqn:Es; try discriminate. injection H as <-.
+    unfold serve_measure, set_tasks; cbn [tasks sigtask notified served].
+    pose proof (tasks_rank_upd (tasks st) i t (fun t => mkTask Running (t_ready t) (t_seen t)) E) as Hu.
+    unfold task_rank in Hu. cbn [t_status t_ready] in Hu. rewrite ?Es in Hu.
+    destruct (t_ready t); lia.
+  - (* LReady *)
+    destruct (nth_error (tasks st) i) as [t|] eqn:E; [|discriminate].
+    destruct (t_status t) eqn:Es; try discriminate. destruct (t_ready t) eqn:Er; [discriminate|]. injection H as <-.
+    unfold serve_measure, set_tasks; cbn [tasks sigtask notified served].
+    pose proof (tasks_rank_upd (tasks st) i t (fun t => mkTask (t_status t) true (t_seen t)) E) as Hu.
+    unfold task_rank in Hu. cbn [t_status t_ready] in Hu. rewrite ?Es, ?Er in Hu. lia.
+  - (* LRet *)
+    destruct (nth_error (tasks st) i) as [t|] eqn:E; [|discriminate].
+    destruct (t_status t) eqn:Es; try discriminate.
+    pose proof (tasks_rank_upd (tasks st) i t (fun t => mkTask (Returned r) (t_ready t) (t_seen t)) E) as Hu.
+    unfold task_rank in Hu. cbn [t_status t_ready] in Hu. rewrite ?Es in Hu.
+    assert (Hpos : 1 <= (if t_ready t then 1 else 2)) by (destruct (t_ready t); lia).
+    destruct r as [e|]; [destruct (first_err st)|]; injection H as <-;
+      unfold serve_measure, set_tasks; cbn [tasks sigtask notified served]; lia.
+  - (* LTake *)
+    destruct (sigtask st) eqn:Es; try discriminate. destruct (pending st) as [s'|]; [|discriminate].
+    destruct (sig_eqb s s'); [|discriminate]. injection H as <-.
+    unfold serve_measure; cbn [tasks sigtask notified served]. rewrite Es. cbn [sig_rank]. lia.
+  - (* LAct *)
+    destruct (sigtask st) as [|s k|] eqn:Es; try discriminate.
+    destruct (nth_error signal_run_order k) as [a|] eqn:En; [|discriminate]. injection H as <-.
+    assert (Hk : k < length signal_run_order) by (apply nth_error_Some; rewrite En; discriminate).
+    unfold serve_measure, act_effect.
+    destruct (String.eqb a "set"); [|destruct (String.eqb a "cancel")]; cbn [tasks sigtask notified served]; rewrite Es; cbn [sig_rank]; lia.
+  - (* LDone *)
+    destruct (sigtask st) eqn:Es; try discriminate.
+    destruct (cancelled st && signal_select_shape); [|discriminate]. injection H as <-.
+    unfold serve_measure; cbn [tasks sigtask notified served]. rewrite Es. cbn [sig_rank]. lia.
+  - (* LNotifyReady *)
+    destruct (notified st) eqn:En; cbn [negb andb] in H; [discriminate|].
+    destruct (forallb t_ready (tasks st)); [|discriminate]. injection H as <-.
+    unfold serve_measure; cbn [tasks sigtask notified served]. rewrite En. lia.
+  - (* LServe *)
+    destruct (served st) eqn:Esv; [discriminate|].
+    match type of H with (if ?c then _ else _) = _ => destruct c end; [|discriminate]. injection H as <-.
+    unfold serve_measure; cbn [tasks sigtask notified served]. rewrite Esv. lia.
+Qed.
+
+Fixpoint all_quiet (tr : list label) : bool :=
+  match tr with [] => true | l :: r => quiet_label l && all_quiet r end.
+
+Lemma quiet_run_bounded : forall tr st st', all_quiet tr = true -> run st tr = Some st' ->
+  length tr + serve_measure st' <= serve_measure st.
+Proof.
+  induction tr as [|l tr IH]; intros st st' Hq H; cbn [run] in H.
+  - injection H as <-. cbn. lia.
+  - cbn [all_quiet] in Hq. apply andb_prop in Hq. destruct Hq as [Hl Hr].
+    destruct (step st l) as [st1|] eqn:E; [|discriminate].
+    pose proof (quiet_step_decreases st l st1 Hl E). specialize (IH st1 st' Hr H). cbn [length]. lia.
+Qed.
+
+Lemma exists_not_returned : forall l, forallb is_returned l = false ->
+  exists i t, nth_error l i = Some t /\ is_returned t = false.
+Proof.
+  induction l as [|a l IH]; cbn [forallb]; [discriminate|].
+  destruct (is_returned a) eqn:E; cbn [andb].
+  - intro H. destruct (IH H) as (i & t & Hi & Ht). exists (Datatypes.S i), t. split; assumption.
+  - intros _. exists 0, a. split; [reflexivity|exact E].
+Qed.
+
+Lemma serve_enabled : forall st, served st = None -> forallb is_returned (tasks st) = true ->
+  sig_returned st = true -> exists st', step st (LServe (first_err st)) = Some st'.
+Proof.
+  intros st Hs Hall Hsig. cbn [step]. rewrite Hs, Hall, Hsig. cbn [andb].
+  destruct (first_err st) as [e|]; [rewrite N.eqb_refl|]; eexists; reflexivity.
+Qed.
+
+(* PROGRESS: once the shared context is cancelled -- a signal was acted upon or a task failed --
+   Serve cannot get stuck before it has returned: some quiet label is always enabled *)
+Lemma serve_progress : forall st, cancelled st = true -> served st = None ->
+  exists l st', quiet_label l = true /\ step st l = Some st'.
+Proof.
+  intros st Hc Hs.
+  destruct (forallb is_returned (tasks st)) eqn:Hall.
+  - destruct (sigtask st) as [|s k|] eqn:Esg.
+    + exists LDone. eexists. split; [reflexivity|]. cbn [step]. rewrite Esg, Hc, select_shape. reflexivity.
+    + destruct (nth_error signal_run_order k) as [a|] eqn:En.
+      * exists LAct. eexists. split; [reflexivity|]. cbn [step]. rewrite Esg, En. reflexivity.
+      * assert (Hsig : sig_returned st = true).
+        { unfold sig_returned. rewrite Esg. apply nth_error_None in En. apply Nat.leb_le. exact En. }
+        destruct (serve_enabled st Hs Hall Hsig) as [st' H]. exists (LServe (first_err st)), st'. split; [reflexivity|exact H].
+    + assert (Hsig : sig_returned st = true) by (unfold sig_returned; rewrite Esg; reflexivity).
+      destruct (serve_enabled st Hs Hall Hsig) as [st' H]. exists (LServe (first_err st)), st'. split; [reflexivity|exact H].
+  - destruct (exists_not_returned _ Hall) as (i & t & Hi & Ht).
+    unfold is_returned in Ht. destruct (t_status t) eqn:Es; try discriminate.
+    + exists (LStart i). eexists. split; [reflexivity|]. cbn [step]. rewrite Hi, Es. reflexivity.
+    + exists (LRet i None). eexists. split; [reflexivity|]. cbn [step]. rewrite Hi, Es. reflexivity.
+Qed.
